@@ -340,6 +340,8 @@ def call_wrapper(dadi, pb, spec, owned=None):
     lower, upper, fixed = owned['lower_bound'], owned['upper_bound'], owned['fixed_params']
     pts = spec.get('pts')
     kw = dict(multinom=bool(spec['multinom']), fixed_params=fixed)
+    for k_, v_ in (spec.get('extra_kw') or {}).items():      # further options of the wrapper (verbose, flush_delay ...), where it has them
+        if k_ in params: kw[k_] = v_
     if 'func_args' in owned: kw['func_args'] = owned['func_args']
     if 'func_kwargs' in owned: kw['func_kwargs'] = owned['func_kwargs']
     if w == 'optimize_grid':
@@ -581,6 +583,8 @@ def run_optim(chk, ctx, spec, sample=True, report=None, keep_defaults=False):
     chk.stat('evaluations_recorded', len(calls))
     # ---------------------------------------------------------------- K: Lean replay of the trace
     k_trace(chk, ctx, spec, pb, rec, calls, xret, fret, verdict, scale)
+    if w == 'optimize_grid':
+        k_grid(chk, ctx, spec, pb, rec, calls, xret, fret)
     return dict(raised=None, rec=rec, verdict=verdict, xret=xret, fret=fret, calls=calls)
 
 def raw_answer(b, spec):
@@ -767,6 +771,72 @@ def k_trace(chk, ctx, spec, pb, rec, calls, xret, fret, verdict, scale):
     lf = set(verdict) - {'grid_best', 'reported_not_finite', 'grid_points'}
     if mf == lf: chk.k_ok('clauses:' + tn)
     else: chk.k_bad('clauses:' + tn, spec, sorted(lf), sorted(mf), None)
+
+def tok_slices(spec):
+    toks = []
+    for e in spec['grid']:
+        a, b, c, kind = grid_entry(e)
+        if kind == 'count':
+            toks.append('c:%s:%s:%d' % (rat(float(a)), rat(float(b)), int(c)))
+        else:
+            lit = all(isinstance(v, int) and not isinstance(v, bool) for v in e[:3])
+            toks.append('s:%s:%s:%s:%d' % (rat(float(a)), rat(float(b)), rat(float(c)), 1 if lit else 0))
+    return ';'.join(toks)
+
+def k_grid(chk, ctx, spec, pb, rec, calls, xret, fret):
+    """K for the grid search AS A WHOLE: nothing recorded is handed to the model but the caller's slices and fixed_params; the Lean model
+    (`runGridT`: generated optimize_grid row around the enumeration `bruteOpt (gridPoints slices)`) must reproduce the evaluation points IN
+    ORDER, every objective value, the element type of the queries, brute's answer, the returned vector and the reported optimum"""
+    driver = ctx['driver']
+    if driver is None or not driver.ok() or len(rec) != 1 or rec[0]['out'] is None: return
+    op = 'grid:optimize_grid'
+    b = rec[0]
+    fixed = fx_num(spec['fixed'])
+    head = 'c12.grid optimize_grid %s %s' % (tok_slices(spec), tok_bounds(fixed))
+    ans = driver.ask(head + ' = - 1')
+    if not ans.startswith('ok '):
+        chk.k_bad(op, spec, 'ran (%d evaluations)' % len(calls), ans, None); return
+    mkind, mpts = ans[3:].split(' ')
+    uniq = []                                   # the model's points as the exact rationals it printed (they are the keys of the likelihood table)
+    for t in ([] if mpts == '=' else mpts.split(';')):
+        if t not in uniq: uniq.append(t)
+    lls = [pb.ll([float(x) for x in parse_list(t)], bool(spec['multinom'])) for t in uniq]
+    if not all(math.isfinite(v) for v in lls):
+        chk.k_skipped += 1; chk.stat('grid_nonfinite_likelihood_skipped'); return
+    ans = driver.ask('%s %s %s 0' % (head, ';'.join(uniq) if uniq else '=', ','.join(rat(v) for v in lls) if lls else '-'))
+    if not ans.startswith('ok '):
+        chk.k_bad(op, spec, 'ran (%d evaluations)' % len(calls), ans, None); return
+    mkind, mpts, mvals, mres, mrep, mxmin = ans[3:].split(' ')
+    probs = []
+    qkind = 'int' if b.get('kinds') == {'int'} else 'float'
+    if qkind != mkind: probs.append('element type of the queries: implementation %s, model %s' % (qkind, mkind))
+    me = parse_vecs(mpts)
+    if len(me) != len(calls) or not all(rel_ok(x, y, 1e-12) or np.allclose(x, y, rtol=1e-12, atol=1e-13) for x, y in zip(me, calls)):
+        j = next((i for i, (x, y) in enumerate(zip(me, calls)) if not np.allclose(x, y, rtol=1e-12, atol=1e-13)), None)
+        probs.append('evaluation points (in order): implementation %d, model %d; first difference at %r: %r vs %r'
+                     % (len(calls), len(me), j, None if j is None else calls[j], None if j is None else me[j]))
+    mv = [float(x) for x in parse_list(mvals)]
+    if len(mv) != len(b['values']) or not all(abs(x - y) <= 1e-9 * max(abs(x), abs(y), 1e-300) for x, y in zip(mv, b['values'])):
+        probs.append('objective values (in order) differ')
+    if probs:
+        chk.k_bad(op, spec, '; '.join(probs)[:1500], ans[:300], None); return
+    # the answer: decided on the model side when two grid points are (nearly) tied for the minimum (round-off would choose)
+    srt = sorted(mv)
+    if len(srt) > 1 and abs(srt[1] - srt[0]) <= 1e-9 * max(abs(srt[0]), abs(srt[1]), 1e-300):
+        chk.k_skipped += 1; chk.stat('grid_near_tie_skipped'); return
+    xraw, fraw = raw_answer(b, spec)
+    mx = None if mxmin == 'N' else [float(x) for x in parse_list(mxmin)]
+    if mx is None or not (rel_ok(mx, xraw, 1e-12) or np.allclose(mx, xraw, rtol=1e-12, atol=1e-13)):
+        probs.append('brute answers %r, the enumeration %r' % (xraw.tolist(), mx))
+    mr = None if mres == 'N' else [float(x) for x in parse_list(mres)]
+    if mr is None or not (rel_ok(mr, xret, 1e-12) or np.allclose(mr, xret, rtol=1e-12, atol=1e-13)):
+        probs.append('returned vector: implementation %r, model %r' % (xret.tolist(), mr))
+    if fret is not None:
+        mrep = None if mrep == 'N' else float(Fraction(mrep))
+        if mrep is None or not abs(mrep - fret) <= 1e-9 * max(abs(fret), abs(mrep), 1e-300):
+            probs.append('reported optimum: implementation %r, model %r' % (fret, mrep))
+    if probs: chk.k_bad(op, spec, '; '.join(probs)[:1500], ans[:300], None)
+    else: chk.k_ok(op)
 
 def read_table(chk, ctx):
     driver = ctx['driver']
@@ -1252,6 +1322,119 @@ def gen_objfunc(rng):
             for b_ in ('lower', 'upper'): spec['types'][b_] = str(rng.choice(FLOAT_FLAVOURS[1:]))
     return spec
 
+# =============================================================================================== how each wrapper calls _object_func
+LIKELIHOOD_OPTIONS = ('data', 'model_func', 'pts', 'multinom', 'fixed_params', 'func_args', 'func_kwargs', 'll_scale', 'lower_bound', 'upper_bound')
+
+def read_args_table(ctx):
+    out = ctx['driver'].ask('c12.args')
+    if not out.startswith('ok '): return None
+    sig, req, rows = out[3:].split(' ', 2)
+    t = {}
+    for ent in rows.split(';'):
+        name, own, bind = ent.split('|')
+        t[name] = dict(own=own.split(','), binding=[tuple(x.split('=', 1)) for x in bind.split(',')] if bind else [])
+    return dict(sig=sig.split(','), req=req.split(','), rows=t)
+
+def case_args(chk, ctx, spec):
+    """one call of a wrapper with every option set to a recognisable non-default value; `_object_func` is wrapped so that the arguments of
+    every call, bound against ITS signature, are recorded.  L3 (independent of the model, from `inspect` only): every option of the wrapper
+    that `_object_func` also has and that enters the likelihood reaches the parameter of the same name unchanged (the bound lists: or None,
+    when the optimiser gets them).  K: the recorded binding is the generated table `objCalls` (the one `C12_objective_args_table` is about)."""
+    dadi = ctx['dadi']; driver = ctx['driver']; I = dadi.Inference; N = dadi.NLopt_mod
+    w = spec['wrapper']; tn = table_name(spec)
+    keyw = 'opt:log_opt=%s' % bool(spec.get('log_opt')) if w == 'opt' else w
+    pb = Problem(dadi, spec['toy'], spec.get('pts'), spec.get('func_args'), spec.get('func_kwargs'))
+    owned = caller_objects(spec)
+    real = I._object_func
+    sig = inspect.signature(real)
+    seen = []
+    def recorder(*a, **k):
+        try:
+            seen.append(dict(sig.bind(*a, **k).arguments))
+        except TypeError as e:
+            seen.append({'__bind_error__': str(e)})
+        return real(*a, **k)
+    old = (I._object_func, getattr(N, '_object_func', None))
+    I._object_func = recorder
+    if old[1] is not None: N._object_func = recorder
+    exc = None
+    try:
+        with np.errstate(all='ignore'):
+            call_wrapper(dadi, pb, spec, owned)
+    except Exception as e:
+        exc = e
+    finally:
+        I._object_func = old[0]
+        if old[1] is not None: N._object_func = old[1]
+    chk.l3(('args', tn)); chk.stat('option_forwarding_cases')
+    if not seen:
+        if exc is not None:
+            chk.stat('option_forwarding_case_raised_before_first_evaluation:' + tn)
+        return
+    got = seen[0]
+    if '__bind_error__' in got:
+        chk.fail('%s:objective_call:TypeError' % keyw, '%s calls _object_func with arguments that do not fit its signature: %s' % (w, got['__bind_error__']), spec); return
+    wparams = inspect.signature(getattr(I, w)).parameters
+    passed = dict(data=pb.data, model_func=pb.model_func, pts=spec.get('pts'), multinom=bool(spec['multinom']), fixed_params=owned['fixed_params'],
+                  lower_bound=owned.get('lower_bound'), upper_bound=owned.get('upper_bound'))
+    if 'func_args' in owned: passed['func_args'] = owned['func_args']
+    if 'func_kwargs' in owned: passed['func_kwargs'] = owned['func_kwargs']
+    if 'll_scale' in wparams and spec.get('ll_scale', 1) != 1: passed['ll_scale'] = spec['ll_scale']
+    if 'full_output' in wparams and w != 'opt': passed['full_output'] = bool(spec.get('full_output'))
+    for k_, v_ in (spec.get('extra_kw') or {}).items():
+        if k_ in wparams: passed[k_] = v_
+    def same(a, b):
+        if a is b: return True
+        if inspect.ismethod(a) and inspect.ismethod(b): return a == b           # a bound method is a fresh object at every attribute access
+        if isinstance(a, (bool, int, float)) and isinstance(b, (bool, int, float)): return type(a) is type(b) and a == b
+        return False
+    # ---- L3
+    for o, v in passed.items():
+        if o not in sig.parameters or o not in wparams: continue
+        r = got.get(o, sig.parameters[o].default)
+        ok = same(r, v) or (o in ('lower_bound', 'upper_bound') and r is None)
+        if not ok and o in LIKELIHOOD_OPTIONS:
+            chk.fail('%s:option_forwarded:%s' % (keyw, o), '%s(..., %s=%r, ...) calls _object_func with %s=%r' % (w, o, v, o, r), spec)
+        elif not ok:
+            chk.stat('option_not_forwarded:%s:%s' % (tn, o))
+    # ---- K
+    if driver is None or not driver.ok(): return
+    tab = ctx.get('_args_table') or read_args_table(ctx)
+    ctx['_args_table'] = tab
+    if tab is None or tn not in tab['rows']:
+        chk.k_bad('objective_args:' + tn, spec, sorted(k for k in got if k != 'params'), 'no row', None); return
+    row = tab['rows'][tn]
+    probs = []
+    if list(sig.parameters)[1:] != tab['sig']: probs.append('signature %r vs %r' % (list(sig.parameters)[1:], tab['sig']))
+    bind = dict(row['binding'])
+    if set(bind) != set(got) - {'params'}:
+        probs.append('parameters given: implementation %r, model %r' % (sorted(set(got) - {'params'}), sorted(bind)))
+    if [p_ for p_ in wparams] != row['own']: probs.append('own parameters %r vs %r' % (list(wparams), row['own']))
+    for p_, a_ in row['binding']:
+        if p_ not in got: continue
+        r = got[p_]
+        if a_ in passed: okk = same(r, passed[a_])
+        elif a_ == 'None': okk = r is None
+        elif a_ in wparams: okk = same(r, wparams[a_].default) or r is wparams[a_].default      # an own option left at its default
+        else:
+            try: okk = float(a_) == float(r) and not isinstance(r, bool)
+            except (ValueError, TypeError): okk = not re.fullmatch(r'[-+0-9.eE]+', a_)       # a local of the wrapper (output_stream): nothing to compare with
+        if not okk: probs.append('%s: implementation %r, model says `%s`' % (p_, r, a_))
+    if probs: chk.k_bad('objective_args:' + tn, spec, '; '.join(probs)[:1200], str(row)[:400], None)
+    else: chk.k_ok('objective_args:' + tn)
+
+def gen_args_spec(rng, w, tier, log_opt=False):
+    if w == 'optimize_grid':
+        spec = gen_grid_spec(rng, tier, k=2, nfree=1, grid_kind='count', full_output=True)
+    else:
+        spec = gen_spec(rng, w, tier, k=2, pfixed=1.0, bounds='full', types='plain', tight=False, log_opt=log_opt, algorithm='LN_BOBYQA', maxiter=3)
+        if w in ('optimize', 'optimize_log', 'optimize_lbfgsb', 'optimize_log_lbfgsb', 'optimize_cons'): spec['ll_scale'] = 7.0
+    spec['case'] = 'args'
+    spec['multinom'] = False                       # the default is True
+    spec['func_args'] = [0.3]; spec['func_kwargs'] = {'tilt': 0.2}
+    spec['extra_kw'] = {'flush_delay': 0.37, 'verbose': 999983}
+    return spec
+
 # =============================================================================================== perturb_params
 def case_perturb(chk, ctx, spec):
     dadi = ctx['dadi']; driver = ctx['driver']; M = dadi.Misc
@@ -1303,15 +1486,25 @@ def case_perturb(chk, ctx, spec):
             if 'mut' not in reported:
                 reported.add('mut')
                 chk.fail('perturb_params:mutates_bounds', 'perturb_params rewrote the caller\'s bound lists: lower %r -> %r, upper %r -> %r' % (lower, lo_arg, upper, up_arg), dict(spec, seeds=[sd]))
-        # ---- K
+        # ---- K: the draw AND the clamps — the model gets fold and the uniform variates; its exponent of 2 (generated from the draw statement)
+        #      is compared with the float one, `2**exponent` comes back as a table of the floats numpy computes
         if driver is not None and driver.ok():
-            out = driver.ask('c12.perturb %s %s %s %s' % (tok_vec(params), tok_vec(factors.tolist()), tok_bounds(lower), tok_bounds(upper)))
+            sp1 = dict(spec, seeds=[sd])
+            eo = driver.ask('c12.perturbexp %s %s' % (rat(float(fold)), tok_vec(u.tolist())))
+            if not eo.startswith('ok '):
+                chk.k_bad('perturb_params', sp1, pn.tolist(), eo, None); continue
+            etoks = eo[3:].split(',')
+            fexp = fold * (2 * u - 1)
+            if len(etoks) != len(u) or not all(abs(float(Fraction(t)) - float(x)) <= 1e-12 * max(1.0, abs(float(x))) for t, x in zip(etoks, fexp)):
+                chk.k_bad('perturb_params', sp1, 'exponents %r' % fexp.tolist(), eo, None); continue
+            tab = ','.join(etoks) + ';' + ','.join(rat(float(f)) for f in factors)
+            out = driver.ask('c12.perturbfold %s %s %s %s %s %s' % (tok_vec(params), rat(float(fold)), tok_vec(u.tolist()), tok_bounds(lower), tok_bounds(upper), tab))
             if out.startswith('ok '):
                 mv = np.array([float(x) for x in parse_list(out[3:])])
                 if mv.shape == pn.shape and np.all(np.isfinite(pn)) and np.all(np.abs(mv - pn) <= 1e-9 * np.maximum(np.abs(mv), np.abs(pn)) + 1e-300): chk.k_ok('perturb_params')
-                else: chk.k_bad('perturb_params', dict(spec, seeds=[sd]), pn.tolist(), mv.tolist(), None)
+                else: chk.k_bad('perturb_params', sp1, pn.tolist(), mv.tolist(), None)
             else:
-                chk.k_bad('perturb_params', dict(spec, seeds=[sd]), pn.tolist(), out, None)
+                chk.k_bad('perturb_params', sp1, pn.tolist(), out, None)
 
 def gen_perturb(rng, tier, mode=None):
     k = int(rng.integers(1, 5))
@@ -1338,7 +1531,7 @@ def gen_perturb(rng, tier, mode=None):
     if mode == 'no_bounds' or rng.random() < 0.08: lo = None
     if mode == 'no_bounds' or rng.random() < 0.08: up = None
     nd = 6 if tier == 'quick' else 25
-    return dict(case='perturb', params=params, fold=int(rng.choice([1, 1, 2, 3])), lower=lo, upper=up, narrow=(mode == 'narrow'),
+    return dict(case='perturb', params=params, fold=int(rng.choice([1, 1, 2, 3, 0, 5])), lower=lo, upper=up, narrow=(mode == 'narrow'),
                 seeds=[int(s) for s in rng.integers(0, 2 ** 31 - 1, size=nd)])
 
 # =============================================================================================== entry points
@@ -1358,6 +1551,7 @@ def run_case(chk, ctx, spec):
     elif c == 'project': case_project(chk, ctx, spec)
     elif c == 'objfunc': case_objfunc(chk, ctx, spec)
     elif c == 'perturb': case_perturb(chk, ctx, spec)
+    elif c == 'args': case_args(chk, ctx, spec)
     else: raise common.Infra('unknown case kind %r' % c)
 
 def follow_up(chk, ctx, spec, r):
@@ -1436,6 +1630,13 @@ def run(chk, ctx):
         specs.append(gen_seq(rng, w, tier, int(rng.integers(2, 4))))
     for s_ in specs:
         run_case(chk, ctx, s_)
+    # ---- how each wrapper calls `_object_func`: every option at a recognisable non-default value (multinom=False, flush_delay, verbose, ll_scale,
+    #      func_args, func_kwargs, fixed_params, bounds), the arguments `_object_func` receives bound against its signature
+    for w in names:
+        if w.endswith('_resid'): continue
+        for lo_ in ((False, True) if w == 'opt' else (False,)):
+            for _ in range(1 if quick else 3):
+                run_case(chk, ctx, gen_args_spec(rng, w, tier, log_opt=lo_))
     # ---- structured sweep: every wrapper in its plainest documented form
     specs = []
     for w in names:
